@@ -17,7 +17,7 @@ def Cmd.wCurrent : Cmd → Bool
   | .rmCurrent | .lnCurrent => true
   | _ => false
 def Cmd.wHist : Cmd → Bool
-  | .lnCurrent => true
+  | .mvNextTo => true
   | _ => false
 def Cmd.wFcount : Cmd → Bool
   | .readPolicyFile | .setReg .fcount _ => true
